@@ -41,6 +41,8 @@ type vfC11Cfg struct {
 	StrAddr bool
 	Inject  bool
 	Bound   int
+	Batch   bool // Linux batch read loops on a virtual batch connection
+	Hold    bool // the application accepts one peer and then stops accepting until that peer's stream is complete: the backlog stays full meanwhile
 }
 
 var vfInjections = []string{"none", "same-address-other-conv-sn5", "same-address-other-conv-sn0", "foreign-address-same-conv-replay", "foreign-address-parity", "foreign-address-short-data",
@@ -62,6 +64,7 @@ func vfC11Run(cf vfC11Cfg) explore.RunFunc {
 		inj := "none"
 		out := hx.RunVrt(e, vrt.Config{PreemptCost: 1, SwitchCost: 1, SelectCost: 1, TimerEarlyCost: -1, Horizon: 60 * time.Second, MaxSteps: 3000000}, func() {
 			vfResetGlobals()
+			vfBatchMode = cf.Batch
 			vrt.SetPoolMode(vrt.PoolEager)
 			n := vfNewNet()
 			var laddr net.Addr = vfUDP(1, 9000)
@@ -154,7 +157,26 @@ func vfC11Run(cf vfC11Cfg) explore.RunFunc {
 				if cf.Backlog > 0 {
 					vrt.Sleep(30 * time.Millisecond) // let the backlog fill up first
 				}
+				holdKey, held := "", false
 				for {
+					if holdKey != "" {
+						// strangers keep the backlog full; the session just accepted must make progress all the same
+						t0 := vrt.NowNS()
+						for {
+							mu.Lock()
+							ok := complete[holdKey] || fail != ""
+							mu.Unlock()
+							if ok {
+								break
+							}
+							if vrt.NowNS()-t0 > int64(5*time.Second) {
+								bad("C11:session-stalled-while-the-accept-backlog-is-full", "the accepted session %s did not complete its stream within 5 s while unaccepted peers filled the accept backlog (backlog %d)", holdKey, cf.Backlog)
+								return
+							}
+							vrt.Sleep(10 * time.Millisecond)
+						}
+						holdKey = ""
+					}
 					mu.Lock()
 					need := len(peers)
 					if inj == "same-address-other-conv-sn0" && !complete[fmt.Sprintf("%s/%d", peers[0].addr, peers[0].conv)] {
@@ -214,6 +236,9 @@ func vfC11Run(cf vfC11Cfg) explore.RunFunc {
 						return
 					}
 					s.SetNoDelay(1, 10, 2, 1)
+					if cf.Hold && holdKey == "" && !held {
+						holdKey, held = key, true
+					}
 					readers.Add(1)
 					vrt.Go(fmt.Sprintf("reader-%d", p.id), func() {
 						defer readers.Done()
@@ -409,8 +434,12 @@ func vfC11(c *hx.Ctx) {
 		{"two-peers/inject", vfC11Cfg{Peers: 2, K: K, Inject: true}},
 		{"two-peers/inject/aes-128+fec", vfC11Cfg{Cipher: "aes-128", DS: 2, PS: 1, Peers: 2, K: K - 1, Inject: true}},
 		{"two-peers/inject/string-addresses", vfC11Cfg{Peers: 2, K: K - 1, Inject: true, StrAddr: true}},
+		{"two-peers/inject/batch-io", vfC11Cfg{Peers: 2, K: K - 1, Inject: true, Batch: true}},
+		{"two-peers/inject/batch-io/aes-128+fec", vfC11Cfg{Cipher: "aes-128", DS: 2, PS: 1, Peers: 2, K: K - 2, Inject: true, Batch: true}},
 		{"three-peers/backlog=1", vfC11Cfg{Peers: 3, K: K, Backlog: 1}},
 		{"three-peers/backlog=1/inject", vfC11Cfg{Peers: 3, K: K - 2, Backlog: 1, Inject: true}},
+		{"three-peers/backlog=1/application-stops-accepting", vfC11Cfg{Peers: 3, K: K - 1, Backlog: 1, Hold: true}},
+		{"three-peers/backlog=1/application-stops-accepting/batch-io", vfC11Cfg{Peers: 3, K: K - 2, Backlog: 1, Hold: true, Batch: true}},
 		{"three-peers/aes-gcm", vfC11Cfg{Cipher: "aes-gcm", Peers: 3, K: K}},
 		{"two-peers/sched", vfC11Cfg{Peers: 2, K: 0, Bound: hx.Pick(c, 1, 2)}},
 		{"two-peers/sched/inject", vfC11Cfg{Peers: 2, K: 0, Inject: true, Bound: 1}},
@@ -420,7 +449,7 @@ func vfC11(c *hx.Ctx) {
 	vfC11Reconnect(c, left/time.Duration(max(per, 1)))
 	for _, x := range units {
 		c.UnitBudget = left / time.Duration(max(per, 1))
-		c.Explore(x.name, map[string]any{"peers": x.cf.Peers, "K": x.cf.K, "backlog": x.cf.Backlog, "cipher": x.cf.Cipher, "fec": []int{x.cf.DS, x.cf.PS}, "inject": x.cf.Inject, "deviation_bound": x.cf.Bound}, x.cf.Bound, vfC11Run(x.cf))
+		c.Explore(x.name, map[string]any{"peers": x.cf.Peers, "K": x.cf.K, "backlog": x.cf.Backlog, "cipher": x.cf.Cipher, "fec": []int{x.cf.DS, x.cf.PS}, "inject": x.cf.Inject, "deviation_bound": x.cf.Bound, "batch_io": x.cf.Batch}, x.cf.Bound, vfC11Run(x.cf))
 	}
 }
 
